@@ -2,6 +2,7 @@
 
 OPT = ["-O2", "-DNDEBUG", "-g0", "-w"]
 SIM = ["-O1", "-DNDEBUG", "-g0", "-w", "-DBOOST_ASIO_DISABLE_EPOLL", "-fno-access-control"]
+SIM_ASAN = ["-O1", "-DNDEBUG", "-g0", "-w", "-DBOOST_ASIO_DISABLE_EPOLL", "-fno-access-control", "-fsanitize=address,undefined", "-fno-sanitize-recover=undefined", "-fno-omit-frame-pointer"]
 ASAN = ["-O1", "-DNDEBUG", "-g", "-w", "-fsanitize=address", "-fno-omit-frame-pointer"]
 
 TARGETS = {
@@ -13,12 +14,14 @@ TARGETS = {
     # E1 simnet: the real client over a simulated stream in virtual time
     "simnet": {"sources": ["e1/client_generic.cpp", "e1/client_tcp.cpp", "e1/world.cpp", "e1/scenarios.cpp", "e1/main.cpp", "e1/broker.cpp", "e1/sim.cpp", "e1/vclock.cpp"],
                "deps": ["ref", "common", "e1", "e3/glue.hpp"], "flags": SIM, "fallback_flags": SIM + ["-DSIMNET_NO_PEEK"]},
+    "simnet_asan": {"sources": ["e1/client_generic.cpp", "e1/client_tcp.cpp", "e1/world.cpp", "e1/scenarios.cpp", "e1/main.cpp", "e1/broker.cpp", "e1/sim.cpp", "e1/vclock.cpp"],
+                    "deps": ["ref", "common", "e1", "e3/glue.hpp"], "flags": SIM_ASAN, "fallback_flags": SIM_ASAN + ["-DSIMNET_NO_PEEK"]},
     # E3 codec / validator enumerators
     "c16_validators": {"sources": ["e3/c16_validators.cpp"], "deps": ["ref", "common"], "flags": OPT},
     "codec_enum": {"sources": ["e3/codec_enum.cpp"], "deps": ["ref", "common", "e3/glue.hpp"], "flags": OPT},
 }
 
-ASAN_ENV = {"ASAN_OPTIONS": "detect_leaks=0:abort_on_error=1:handle_abort=0"}
+ASAN_ENV = {"ASAN_OPTIONS": "detect_leaks=0:abort_on_error=1:handle_abort=0:allocator_may_return_null=1", "UBSAN_OPTIONS": "halt_on_error=1:abort_on_error=1:print_stacktrace=0"}
 
 SIM_ASSUME = ["sim streams replace sockets (StreamType template seam); TLS/WebSocket layers not instantiated",
               "reference broker and strict reference codec are trusted oracles",
@@ -61,6 +64,7 @@ CHECKS = {
         {"name": "decoders", "target": "codec_enum", "args": ["--mode", "c18"], "thorough_args": ["--thorough"]},
     ], "assumptions": ["reference encoder (src/ref/mqtt_ref.hpp) generates only well-formed packets (self-checked by its own strict decoder)"]},
     "C19": {"jobs": [
+        {"name": "hostile-broker-asan", "target": "simnet_asan", "args": ["--set", "C19"], "thorough_args": ["--thorough"], "env": ASAN_ENV, "timeout_quick": 1500, "timeout_thorough": 3400},
         {"name": "decoder-guard-pages", "target": "codec_enum", "args": ["--mode", "c19"], "thorough_args": ["--thorough"], "timeout_thorough": 3000},
     ], "assumptions": ["over-/under-reads are observed through PROT_NONE guard pages adjacent to the packet body"]},
     "C20": {"jobs": [
